@@ -896,6 +896,22 @@ def nat_wrappers(rng):
             orb = np.asarray(fn(scf)[0][0])
             n = np.asarray(at.occ.f)[0, 0, 0] * np.sum(np.abs(orb) ** 2, axis=1)
             e = max(e, float(np.abs(n - n_ref).max() / np.abs(n_ref).max()), float(np.abs(at.dV * orb.conj().T @ orb - np.eye(orb.shape[1])).max()))
+    # two spin channels with the SAME number of electrons but DIFFERENT orbitals (spin 0 does not mean identical channels): every channel keeps its own density
+    from eminus.dft import get_n_spin
+
+    at2 = Atoms("LiH", [[0.0, 0.0, 0.0], [0.0, 0.0, 3.0]], ecut=4, a=8, unrestricted=True)
+    scf2 = SCF(at2, opt={"sd": 2}, etol=1e-12)
+    scf2.run()
+    a2 = scf2.atoms
+    scf2.W = [np.asarray(w) + 0.4 * rnd(rng, *np.shape(w)) for w in scf2.W]
+    ns_ref = np.asarray(get_n_spin(a2, orth(a2, scf2.W)))
+    if np.abs(ns_ref[0] - ns_ref[1]).max() < 1e-3 * np.abs(ns_ref).max():
+        raise RuntimeError("harness: the two spin channels are not different")
+    for fn in (KSO, SCDM, WO):
+        orbs = np.asarray(fn(scf2)[0])
+        for sp in range(2):
+            n = np.sum(np.asarray(a2.occ.f)[0, sp][None, :] * np.abs(orbs[sp]) ** 2, axis=1)
+            e = max(e, float(np.abs(n - ns_ref[sp]).max() / np.abs(ns_ref).max()))
     return e
 
 
@@ -980,6 +996,22 @@ def nat_single_densities_weighted_k(rng):
             dn = np.asarray(get_grad_field(a, nsp)) if xc == "pbe" else None
             ref = float(get_Ecoul(a, n)) + float(get_Exc(scf, n, n_spin=nsp, dn_spin=dn, Nspin=2))
             worst = max(worst, abs(abs(esic) - abs(ref)) / abs(ref))
+    # different numbers of electrons in the two channels with a SYMMETRIC start (guess = 'sym-...'): both channels enter with their own orbitals and fillings
+    at = Atoms("Li", [[0.0, 0.0, 0.0]], ecut=4, a=8, unrestricted=True)
+    scf = SCF(at, xc="lda,vwn", guess="sym-random", verbose="critical")
+    a = scf.atoms
+    Y = orth(a, [rnd(rng, 2, len(a.Gk2c[0]), a.occ.Nstate)])
+    scf.Y = Y
+    ns = np.asarray(get_n_single(a, Y))
+    want = 0.0
+    for i in range(a.occ.Nstate):
+        for sp in range(2):
+            wgt = float(np.asarray(a.occ.f)[0, sp, i])
+            if wgt > 0:
+                ni = np.zeros((2, a.Ns))
+                ni[0] = ns[sp, :, i] / wgt
+                want += (float(get_Ecoul(a, ni[0])) + float(get_Exc(scf, ni[0], n_spin=ni, Nspin=2))) * wgt
+    worst = max(worst, abs(abs(float(get_Esic(scf, Y))) - abs(want)) / abs(want))
     # the optional n_single argument: the caller's array is not modified and a second evaluation on it gives the same energy (fillings 2: spin-paired)
     at = Atoms("LiH", [[0.0, 0.0, 0.0], [0.0, 0.0, 3.0]], ecut=4, a=8)
     scf = SCF(at, xc="pbe", verbose="critical")
